@@ -602,7 +602,7 @@ class ThermalProperties(ThermalPropertiesBase):
             props,
             self._temperatures,
             self._frequencies,
-            self._weights,
+            np.array(self._weights, dtype="int64", order="C"),
             self._cutoff_frequency,
             self._classical,
         )
